@@ -372,14 +372,15 @@ def show(case, out):
 
 def run(ctx):
     ctx.regen_consts()
-    ctx.prove("props/C07.v", THEOREMS, extra_trusted=[
+    extra = [
         "model coq/model/PutValidation.v (hand-written transcription of put_validation.rs; interaction trees give both "
         "the serial semantics and every interleaving) tied to the source by this run's correspondence (token engine and "
         "serial semantics both compared with the implementation) and by the regenerated constants",
         "harness/crates/c03 (real Node around a harness-driven Network; the harness relays store queries and writes in "
-        "the chosen order), tools/props/putval.py and C07.py (generator, oracle, canonicaliser)"])
+        "the chosen order), tools/props/putval.py and C07.py (generator, oracle, canonicaliser)"]
+    ctx.prove("props/C07.v", THEOREMS, extra_trusted=extra)
     binary = ctx.cargo_build("c03")
     cases = ctx.corpus() + ([] if ctx.replay else gen(ctx))
-    ctx.pipeline(cases, binary, oracle, model_term, IMPORTS, nontrivial=nontrivial, show=show, shard_size=60,
+    pv.pipeline(ctx, "props/C07.v", THEOREMS, extra, cases, binary, oracle, model_term, IMPORTS, nontrivial=nontrivial, show=show, shard_size=60,
                  relation="Node::validate_and_store_record / store_replicated_in_record under the harness-chosen "
                           "schedule == PutValidation.sched_run (and == serial_run for serial histories)")
